@@ -88,7 +88,10 @@ func MergeNodes(left, right Node, document *Document) (Node, error) {
 			}
 		}
 
-		r.AddNode(child)
+		// The child only exists on the right. It must be copied like
+		// everything else, otherwise the result shares the node with the right
+		// input (and a later equal child would be merged into the input).
+		r.AddNode(DeepCopy(child, document))
 	next:
 	}
 
